@@ -152,7 +152,8 @@ Section Track2.
   (* ops that cancel no active scope (and enter only inactive ones) *)
   Lemma track0 XE X a b c :
     Good t a -> Good t b -> aw t XE X a b ->
-    (forall y, In y XE -> s_active (scopes a y) = false) -> (forall y, In y X -> s_active (scopes a y) = false) ->
+    (forall y, In y XE -> s_active (scopes a y) = false) ->
+    (forall y, In y X -> s_active (scopes a y) = false \/ s_cancelled (scopes b y) = s_cancelled (scopes a y)) ->
     trk t c a -> trk t c b \/ Esc t b.
   Proof.
     intros Ga Gb W HE HX [[Hd [k [Hc V]]] [Cc Hh]].
@@ -169,20 +170,21 @@ Section Track2.
       + now apply (aw_mono _ _ _ _ _ W c Lc).
       + apply (gd_host _ _ Gb). apply (walk_active b k c Tb); [apply (tl_cur_act _ Tb t k Hcb)|exact S1].
     - exfalso. destruct (Wk y A) as [Ay Ly].
-      destruct (aw_v _ _ _ _ _ W y Ly) as [Ec _]; [intros Hin; rewrite (HX y Hin) in Ay; discriminate|]. congruence.
+      destruct (in_dec Nat.eq_dec y X) as [Hin|Hn].
+      + destruct (HX y Hin) as [E0|E0]; congruence.
+      + destruct (aw_v _ _ _ _ _ W y Ly Hn) as [Ec _]. congruence.
     - right. exists k, y. now repeat split.
   Qed.
 
   (* ops of the form: light prefix; cancel(x); rest that cancels no active scope *)
-  Lemma track1 XE' X' a m x bd b c :
-    Good t a -> Good t b ->
-    treq a m -> KInv m -> running m <> Some t -> tasks m t = tasks a t -> futs m = futs a -> aw t [] [] a m ->
+  Lemma track1' XE' X' a m x bd b c :
+    Good t a -> Good t b -> Good t m -> aw t [] [] a m ->
     aw t XE' X' (scope_cancel m x bd) b ->
     (forall y, In y XE' \/ In y X' -> s_active (scopes m y) = false) ->
+    (forall y, In y XE' \/ In y X' -> s_active (scopes a y) = false) ->
     eligG t a -> trk t c a -> ~ reqG t b -> trk t c b \/ Esc t b.
   Proof.
-    intros Ga Gb Q Km Rm Et Ef Wp Ws HI El Tk Nr.
-    pose proof (Good_treq t a m Ga Q Km Rm) as Gm.
+    intros Ga Gb Gm Wp Ws HI HIa El Tk Nr. pose proof (gd_k _ _ Gm) as Km.
     pose proof (Good_scope_cancel m x bd Gm) as Gm2. set (m2 := scope_cancel m x bd) in *.
     assert (Wc : aw t [] [x] m m2) by (apply aw_scope_cancel; now left).
     assert (Wall : aw t XE' ([x] ++ X') a b).
@@ -196,12 +198,11 @@ Section Track2.
     assert (Ak : s_active (scopes a k) = true) by apply (tl_cur_act _ Ta t k Hc).
     assert (Hcb : k_cur (tasks b t) = Some k) by (rewrite (tcore_cur _ _ E); exact Hc).
     assert (Hdb : k_done (tasks b t) = None) by (rewrite (tcore_done _ _ E); exact Hd).
-    assert (Act : forall y, s_active (scopes m y) = s_active (scopes a y)) by (intros y; apply (tq_active _ _ Q)).
     assert (Wk : forall y, vis a y k -> s_active (scopes a y) = true /\ y < nscope a).
     { intros y Hy. pose proof (walk_active a k y Ta Ak Hy) as Ay. split; [exact Ay|now apply active_lt]. }
     destruct (scan a b c k V) as [S1|[[y [A [B [C D]]]]|[y [B [C D]]]]].
     - intros y Hy. destruct (Wk y Hy) as [Ay Ly]. apply (aw_par _ _ _ _ _ Wall y Ly).
-      intros Hin. rewrite <- Act, (HI y (or_introl Hin)) in Ay. discriminate.
+      intros Hin. rewrite (HIa y (or_introl Hin)) in Ay. discriminate.
     - left. destruct (Wk c V) as [Ac Lc]. split; [split; [exact Hdb|exists k; now split]|]. split.
       + now apply (aw_mono _ _ _ _ _ Wall c Lc).
       + apply (gd_host _ _ Gb). apply (walk_active b k c Tb); [apply (tl_cur_act _ Tb t k Hcb)|exact S1].
@@ -211,9 +212,10 @@ Section Track2.
       { destruct (Nat.eq_dec y x) as [E0|N0]; [exact E0|exfalso].
         destruct (aw_v _ _ _ _ _ Wall y Ly) as [Ec _]; [|congruence].
         intros Hin. apply in_app_or in Hin. destruct Hin as [[Hin|[]]|Hin]; [congruence|].
-        rewrite <- Act, (HI y (or_intror Hin)) in Ay. discriminate. }
+        rewrite (HIa y (or_intror Hin)) in Ay. discriminate. }
       subst y.
-      assert (Hcm : k_cur (tasks m t) = Some k) by (rewrite Et; exact Hc).
+      assert (Hcm : k_cur (tasks m t) = Some k).
+      { rewrite (tcore_cur _ _ (tframe_core t a m (aw_t _ _ _ _ _ Wp (gd_k _ _ Ga)))). exact Hc. }
       assert (Hcm2 : k_cur (tasks m2 t) = Some k).
       { pose proof (tframe_core t m m2 (aw_t _ _ _ _ _ Wc Km)) as E2. rewrite (tcore_cur _ _ E2). exact Hcm. }
       pose proof (gd_tl _ _ Gm) as Tm. pose proof (gd_tl _ _ Gm2) as Tm2.
@@ -233,10 +235,26 @@ Section Track2.
         split; [intros Hcz; now rewrite Ec|exact Es]. }
       assert (Cm : s_cancelled (scopes m x) = false).
       { destruct (aw_v _ _ _ _ _ Wp x Ly) as [Ec _]; [intros []|]. now rewrite Ec. }
-      assert (Elm : eligG t m) by (unfold eligG in *; now rewrite Et, Ef).
+      assert (Mono2 : reqG t m2 -> reqG t b).
+      { intros Rq. apply (reqG_mono t m2 b (gd_k _ _ Gm2)); [|exact Rq]. apply (aw_t _ _ _ _ _ Ws (gd_k _ _ Gm2)). }
+      assert (Elm : eligG t m).
+      { apply (eligG_keep t a m (gd_k _ _ Ga) (aw_t _ _ _ _ _ Wp (gd_k _ _ Ga)) El).
+        intros Rm. apply Nr, Mono2. apply (reqG_mono t m m2 Km); [|exact Rm]. apply (aw_t _ _ _ _ _ Wc Km). }
       pose proof (cancel_hits m x bd k Gm Elm Hcm Vm Cm) as Rq. fold m2 in Rq.
-      apply Nr. apply (reqG_mono t m2 b (gd_k _ _ Gm2)); [|exact Rq]. apply (aw_t _ _ _ _ _ Ws (gd_k _ _ Gm2)).
+      apply Nr, Mono2, Rq.
     - right. exists k, y. now repeat split.
+  Qed.
+
+  Lemma track1 XE' X' a m x bd b c :
+    Good t a -> Good t b ->
+    treq a m -> KInv m -> running m <> Some t -> tasks m t = tasks a t -> futs m = futs a -> aw t [] [] a m ->
+    aw t XE' X' (scope_cancel m x bd) b ->
+    (forall y, In y XE' \/ In y X' -> s_active (scopes m y) = false) ->
+    eligG t a -> trk t c a -> ~ reqG t b -> trk t c b \/ Esc t b.
+  Proof.
+    intros Ga Gb Q Km Rm _ _ Wp Ws HI. apply (track1' XE' X' a m x bd b c); auto.
+    - now apply (Good_treq t a m).
+    - intros y Hy. rewrite <- (tq_active _ _ Q). now apply HI.
   Qed.
 End Track2.
 
@@ -282,7 +300,7 @@ Section ActTrack.
     apply (track0 t (xe a o) (xe a o ++ xc a o) a _ c); auto.
     - now apply good_reach.
     - apply good_reach; [now apply reach_ok_step|exact Hrb].
-    - intros y Hy. apply in_app_or in Hy. apply HI. tauto.
+    - intros y Hy. left. apply in_app_or in Hy. apply HI. tauto.
   Qed.
 End ActTrack.
 
@@ -307,7 +325,26 @@ Section Sites.
         apply (aw_weaken t [] []); [intros y []|intros y []|]. apply (aw_trans t _ _ a m); assumption. }
       apply (track0 t XE' X' a b c Ga Gb W); [| |exact Tk].
       + intros y Hy. rewrite <- (tq_active _ _ Q). apply HI. now left.
-      + intros y Hy. rewrite <- (tq_active _ _ Q). apply HI. now right.
+      + intros y Hy. left. rewrite <- (tq_active _ _ Q). apply HI. now right.
+  Qed.
+
+  (* the same with an arbitrary well-formed site state (the prefix may change the tree, e.g. leave a scope) *)
+  Lemma track_site' XE' X' a m m2 x bd b :
+    Good t a -> Good t b -> Good t m -> aw t [] [] a m ->
+    (m2 = scope_cancel m x bd \/ aw t [] [] m m2) ->
+    aw t XE' X' m2 b ->
+    (forall y, In y XE' \/ In y X' -> s_active (scopes m y) = false) ->
+    (forall y, In y XE' \/ In y X' -> s_active (scopes a y) = false) ->
+    TR a b.
+  Proof.
+    intros Ga Gb Gm Wp [->|Wm] Ws HI HIa El Tk Nr.
+    - now apply (track1' t XE' X' a m x bd b c).
+    - assert (W : aw t XE' X' a b).
+      { apply (aw_trans t _ _ a m2); [|exact Ws].
+        apply (aw_weaken t [] []); [intros y []|intros y []|]. apply (aw_trans t _ _ a m); assumption. }
+      apply (track0 t XE' X' a b c Ga Gb W); [| |exact Tk].
+      + intros y Hy. apply HIa. now left.
+      + intros y Hy. left. apply HIa. now right.
   Qed.
 End Sites.
 
@@ -329,7 +366,7 @@ Section PuppetTR.
     Good t a -> Good t b -> aw t XE X a b ->
     (forall y, In y XE \/ In y X -> s_active (scopes a y) = false) -> TR a b.
   Proof.
-    intros Ga Gb W HI _ Tk _. apply (track0 t XE X a b c Ga Gb W); [| |exact Tk]; intros y Hy; apply HI; tauto.
+    intros Ga Gb W HI _ Tk _. apply (track0 t XE X a b c Ga Gb W); [| |exact Tk]; intros y Hy; [|left]; apply HI; tauto.
   Qed.
 
   Lemma ret_TR a u s1 r b :
@@ -361,7 +398,817 @@ Section PuppetTR.
       apply (track_site t c [] [] a (begin_act a u) (scope_cancel (begin_act a u) c0 false) c0 false _ Ga Gb Q Ks Rs Et Ef Wp);
         [now left|now apply aw_ret|intros y [[]|[]]].
     - (* ASetShield *)
-      admit_shield.
-    - admit_rest.
-  Abort.
+      intros _ Tk _.
+      apply (track0 t [] ([] ++ (if b then [] else [c0])) a _ c Ga Gb (aw_puppet_op t a u (ASetShield t0 c0 b) Hu At));
+        [intros y []| |exact Tk].
+      intros y Hy. right. cbn [app] in Hy. unfold puppet_op.
+      set (s := begin_act a u).
+      destruct (Bool.eqb (s_shield (scopes s c0)) b); [now rewrite (proj1 (ss_ret s u (RRet 0)))|].
+      destruct b; [destruct Hy|].
+      rewrite (proj1 (ss_ret _ u (RRet 0))).
+      rewrite (core_cancelled _ _ (kf_scopes _ _ (kframe_restart (upd_scope s c0 (sc_shield false)) _) y)).
+      cbn. unfold upd. destruct (Nat.eqb_spec y c0); [subst|]; reflexivity.
+    - (* ASetDeadline *)
+      unfold puppet_op in *. set (s := begin_act a u) in *.
+      set (m := cancel_timeout (upd_scope s c0 (sc_deadline d)) c0) in *.
+      assert (Qm : treq a m).
+      { apply (treq_trans a s m); [exact Q|]. apply (treq_trans s (upd_scope s c0 (sc_deadline d)) m);
+          [apply treq_upd_scope; intros k; reflexivity|apply treq_cancel_timeout]. }
+      assert (Wm : aw t [] [] a m).
+      { apply (aw_trans t _ _ a s); [exact Wp|]. apply (aw_trans t _ _ s (upd_scope s c0 (sc_deadline d)));
+          [apply aw_upd_scope_keep; intros k; reflexivity|apply aw_cancel_timeout]. }
+      assert (Km : KInv m) by (apply (aw_k _ _ _ _ _ Wm), (gd_k _ _ Ga)).
+      assert (Rm : running m <> Some t).
+      { unfold m, cancel_timeout. destruct (s_timeout _); cbn; congruence. }
+      assert (Etm : tasks m t = tasks a t).
+      { unfold m, cancel_timeout. destruct (s_timeout _); cbn [tasks upd_scope set_scopes timer_cancel set_ready set_timers]; exact Et. }
+      assert (Efm : futs m = futs a) by (unfold m, cancel_timeout; destruct (s_timeout _); reflexivity).
+      set (m2 := if s_active (scopes m c0) && negb (s_cancelled (scopes m c0)) then scope_timeout m c0 else m) in *.
+      apply (track_site t c [] [] a m m2 c0 true _ Ga Gb Qm Km Rm Etm Efm Wm); [|now apply aw_ret|intros y [[]|[]]].
+      unfold m2. destruct (_ && _); [|right; split; [apply aw_refl|reflexivity]].
+      pose proof (treq_scope_timeout m c0) as Qt. unfold scope_timeout in *.
+      destruct (s_deadline (scopes m c0)); [|right; split; [apply aw_refl|reflexivity]].
+      destruct (Z.leb z (now m)); [now left|right]. split; [|intros y; apply (tq_active _ _ Qt)].
+      unfold call_at. cbv zeta.
+      match goal with |- aw t [] [] m (upd_scope ?m1 c0 ?g) => apply (aw_trans t [] [] m m1) end.
+      + apply aw_light; try reflexivity; [apply kq_tasks_same; reflexivity|apply rsh_same; reflexivity|auto].
+      + apply aw_upd_scope_keep. intros k; reflexivity.
+    - (* AGroupEnter *)
+      unfold puppet_op in *. set (s := begin_act a u) in *.
+      destruct (g_entered (groups s g)) eqn:Ee; [eapply ret_TR; eauto|].
+      set (s1 := upd_group s g (gr_entered true)) in *.
+      assert (Eg : g_scope (groups s1 g) = g_scope (groups a g)) by (unfold s1; cbn; unfold upd; now rewrite Nat.eqb_refl).
+      assert (W1 : aw t [] [] a s1) by (apply (aw_trans t _ _ a s); [exact Wp|apply aw_upd_group]).
+      destruct (s_active (scopes s1 (g_scope (groups s1 g)))) eqn:Ea.
+      + rewrite (scope_enter_fail s1 _ u Ea) in *. eapply ret_TR; eauto.
+      + pose proof (aw_puppet_op t a u (AGroupEnter t0 g) Hu At) as W. unfold puppet_op in W. fold s in W. rewrite Ee in W. fold s1 in W.
+        assert (Q1 : treq a s1) by (apply (treq_trans a s s1); [exact Q|apply treq_upd_group; intros k; reflexivity]).
+        apply (TR0 _ _ a _ Ga Gb W). cbn [xe xc app]. rewrite <- Eg.
+        intros y [[<-|[]]|[<-|[]]]; rewrite <- (tq_active _ _ Q1); exact Ea.
+    - (* AGroupExit *)
+      unfold puppet_op in *. set (s := begin_act a u) in *.
+      set (gs := g_scope (groups s g)) in *.
+      set (exc := k_held (tasks s u)) in *.
+      set (m2 := match exc with Some _ => scope_cancel s gs false | None => s end).
+      assert (N2 : nscope m2 = nscope a).
+      { unfold m2. destruct exc; [rewrite (tq_nscope _ _ (treq_scope_cancel s gs false))|]; apply (tq_nscope _ _ Q). }
+      assert (Fr2 : In (nscope m2) [nscope a]) by (rewrite N2; now left).
+      apply (track_site t c [nscope a] [nscope a] a s m2 gs false _ Ga Gb Q Ks Rs Et Ef Wp).
+      + unfold m2. destruct exc; [now left|right; split; [apply aw_refl|reflexivity]].
+      + (* the rest: record the exception, then the shielded checkpoint or the wait loop *)
+        set (s1 := match exc with
+                   | Some e => if is_cancel e then scope_cancel s gs false
+                               else upd_group (scope_cancel s gs false) g (fun x => gr_excs (g_excs x ++ [(0, e)]) x)
+                   | None => s end).
+        assert (W1 : aw t [nscope a] [nscope a] m2 s1).
+        { unfold s1, m2. destruct exc as [e|]; [|apply aw_refl]. destruct (is_cancel e); [apply aw_refl|apply aw_upd_group]. }
+        assert (N1 : nscope s1 = nscope a).
+        { rewrite <- N2. unfold s1, m2. destruct exc as [e|]; [|reflexivity]. destruct (is_cancel e); reflexivity. }
+        change (match exc with
+                | Some e => let a0 := scope_cancel s gs false in
+                            if is_cancel e then a0 else upd_group a0 g (fun x => gr_excs (g_excs x ++ [(0, e)]) x)
+                | None => s end) with s1.
+        destruct (g_tasks (groups s1 g)).
+        * unfold new_scope. cbv zeta. cbn [fst blocked].
+          match goal with |- _ (set_running (set_ctl (bare_yield ?mm u) u ?cc) None) =>
+            apply (aw_trans t _ _ m2 mm); [|apply (aw_trans t _ _ mm (bare_yield mm u)); [apply aw_bare_yield|];
+               apply (aw_trans t _ _ _ (set_ctl (bare_yield mm u) u cc)); [now apply aw_set_ctl|apply aw_set_running; discriminate]] end.
+          apply (aw_trans t _ _ m2 s1); [exact W1|].
+          apply (aw_new_enter t [nscope a] [nscope a] s1 None true u Hu); rewrite N1; now left.
+        * apply (aw_trans t _ _ m2 s1); [exact W1|]. apply aw_wof; [exact Hu|]. intros _. rewrite N1. split; now left.
+      + intros y [[<-|[]]|[<-|[]]]; rewrite (tq_active _ _ Q); exact Fr.
+    - (* AHandleCancel *)
+      unfold puppet_op in *. set (s := begin_act a u) in *.
+      destruct (e_set (events s (k_hevent (tasks s h)))); [eapply ret_TR; eauto|].
+      apply (track_site t c [] [] a s (scope_cancel s (k_hscope (tasks s h)) false) (k_hscope (tasks s h)) false _
+               Ga Gb Q Ks Rs Et Ef Wp); [now left|now apply aw_ret|intros y [[]|[]]].
+    - (* AShieldCk *)
+      apply K0. cbn [xe xc app]. intros y [[<-|[]]|[<-|[]]]; exact Fr.
+    - (* AFailAt *)
+      apply K0. cbn [xe xc app]. intros y [[<-|[]]|[<-|[]]]; exact Fr.
+    - (* AExtCancel: not a puppet op *) intros _ Tk _. left. exact Tk.
+    - (* ARun *) intros _ Tk _. left. exact Tk.
+  Qed.
 End PuppetTR.
+
+Section StepTR.
+  Variables (t : tid) (c : sid).
+  Notation TR := (TR t c).
+
+  Lemma TR_refl a : TR a a.
+  Proof. intros _ Tk _. now left. Qed.
+
+  Lemma step_TR a o :
+    reach_ok a -> running a <> Some t -> t < ntask a -> other_act t o ->
+    Good t (fst (step a o)) -> TR a (fst (step a o)).
+  Proof.
+    intros R Hr At Ho Gb. pose proof (good_reach t a R Hr) as Ga.
+    unfold step in *. destruct (actor o) as [u|] eqn:Ea.
+    - assert (Hu : u <> t).
+      { destruct o; cbn [other_act actor] in *; try discriminate; inversion Ea; subst; intros ->; now apply Ho. }
+      destruct (negb (idle a u)); [apply TR_refl|].
+      destruct o; cbn [actor] in Ea; try discriminate; try (now apply puppet_TR).
+      (* AFinish *)
+      apply (TR0 t c [] [] a _ Ga Gb); [now apply aw_puppet_finish|intros y [[]|[]]].
+    - destruct o; cbn [actor] in Ea; try discriminate; try apply TR_refl.
+      + (* ANewRoot *)
+        apply (TR0 t c [] [] a _ Ga Gb); [|intros y [[]|[]]].
+        apply (aw_step_act t a ANewRoot Ho At).
+      + (* ANativeCancel *)
+        apply (TR0 t c [] [] a _ Ga Gb); [|intros y [[]|[]]]. apply (aw_step_act t a (ANativeCancel t0) Ho At).
+      + (* AExtCancel *)
+        cbn [fst] in *. set (m := set_running a None) in *.
+        apply (track_site t c [] [] a m (scope_cancel m c0 false) c0 false _ Ga Gb).
+        * apply treq_set_running.
+        * apply (KInv_kq a); [apply (gd_k _ _ Ga)|apply kq_set_running].
+        * discriminate.
+        * reflexivity.
+        * reflexivity.
+        * apply aw_set_running. discriminate.
+        * now left.
+        * apply aw_set_running. discriminate.
+        * intros y [[]|[]].
+      + (* ARun *) destruct Ho.
+      + (* ATick *)
+        apply (TR0 t c [] [] a _ Ga Gb); [|intros y [[]|[]]]. apply (aw_step_act t a (ATick dt) Ho At).
+  Qed.
+End StepTR.
+
+Section ResumeTR.
+  Variables (t : tid) (c : sid).
+  Notation TR := (TR t c).
+
+  Definition new_frame (k : ctl) : bool :=
+    match k with
+    | CNew | CYield (YShield _) | CAexitWait _ _ _ | CAexitCk _ _ _ | CStartWait _ _ _ | CStartJoin _ _ _ _ => true
+    | _ => false
+    end.
+
+  Lemma resume_TR a u fo :
+    Tree a -> Ctl a ->
+    (k_ctl (tasks a u) = CNew -> s_active (scopes a (k_hscope (tasks a u))) = false) ->
+    s_active (scopes a (nscope a)) = false ->
+    u <> t -> Good t a -> Good t (fst (resume a u fo)) ->
+    new_frame (k_ctl (tasks a u)) = true -> TR a (fst (resume a u fo)).
+  Proof.
+    intros Ta Ca Hnew Hfresh Hu Ga Gb Hf.
+    assert (K0 : (forall y, In y (xe_ctl a u) \/ In y (xe_ctl a u ++ xc_ctl a u) -> s_active (scopes a y) = false) ->
+                 TR a (fst (resume a u fo))).
+    { intros HI. apply (TR0 t c _ _ a _ Ga Gb (aw_resume t a u fo Hu) HI). }
+    destruct (k_ctl (tasks a u)) eqn:Ectl; try discriminate.
+    - (* CNew *)
+      apply K0. unfold xe_ctl, xc_ctl. rewrite Ectl. cbn [app]. intros y [[<-|[]]|[<-|[]]]; now apply Hnew.
+    - (* YShield *)
+      destruct k; try discriminate. apply K0. unfold xe_ctl, xc_ctl. rewrite Ectl. cbn [app]. intros y [[]|[]].
+    - (* CAexitWait *)
+      destruct (snd (incoming a u fo)) as [e|] eqn:Ei.
+      + unfold resume in *. pose proof (incoming_ctl a u fo) as Ec.
+        pose proof (treq_incoming a u fo) as Qi. pose proof (aw_incoming t [] [] a u fo Hu) as Wi.
+        pose proof (kq_incoming a u fo) as Ki.
+        assert (Eti : tasks (fst (incoming a u fo)) t = tasks a t).
+        { unfold incoming. cbn. unfold upd. destruct (Nat.eqb_spec t u); [congruence|reflexivity]. }
+        assert (Efi : futs (fst (incoming a u fo)) = futs a) by reflexivity.
+        assert (Eri : running (fst (incoming a u fo)) = Some u) by reflexivity.
+        destruct (incoming a u fo) as [s inc]. cbn [fst snd] in *. subst inc. rewrite Ec, Ectl in *.
+        set (s1 := upd_group s g (gr_fut None)) in *.
+        set (m := upd_scope s1 ws (sc_shield true)) in *.
+        assert (Qm : treq a m).
+        { apply (treq_trans a s m); [exact Qi|]. apply (treq_trans s s1 m); [apply treq_upd_group; intros k; reflexivity|].
+          apply treq_upd_scope. intros k; reflexivity. }
+        assert (Wm : aw t [] [] a m).
+        { apply (aw_trans t _ _ a s); [exact Wi|]. apply (aw_trans t _ _ s s1); [apply aw_upd_group|apply aw_shield_true]. }
+        apply (track_site t c [] [] a m (scope_cancel m (g_scope (groups m g)) false) (g_scope (groups m g)) false _ Ga Gb Qm).
+        * apply (aw_k _ _ _ _ _ Wm), (gd_k _ _ Ga).
+        * unfold m, s1. cbn. rewrite Eri. congruence.
+        * exact Eti.
+        * exact Efi.
+        * exact Wm.
+        * now left.
+        * apply aw_wof; [exact Hu|discriminate].
+        * intros y [[]|[]].
+      + apply (TR0 t c [] [] a _ Ga Gb); [|intros y [[]|[]]].
+        apply aw_resume_gen; [exact Hu| | | |].
+        * intros E. congruence.
+        * intros g0 ws0 e0 _ N. now elim N.
+        * intros g0 c0 e0 E. congruence.
+        * intros g0 ch f0 E. congruence.
+    - (* CAexitCk *)
+      unfold resume in *. pose proof (incoming_ctl a u fo) as Ec.
+      pose proof (treq_incoming a u fo) as Qi. pose proof (aw_incoming t [] [] a u fo Hu) as Wi.
+      assert (Eti : tasks (fst (incoming a u fo)) t = tasks a t).
+      { unfold incoming. cbn. unfold upd. destruct (Nat.eqb_spec t u); [congruence|reflexivity]. }
+      assert (Efi : futs (fst (incoming a u fo)) = futs a) by reflexivity.
+      assert (Eni : nscope (fst (incoming a u fo)) = nscope a) by reflexivity.
+      assert (Egi : groups (fst (incoming a u fo)) = groups a) by reflexivity.
+      destruct (incoming a u fo) as [s inc]. cbn [fst snd] in *. rewrite Ec, Ectl in *.
+      assert (Ts : Tree s) by (apply (Tree_treq a); assumption).
+      assert (Au : alloc_t a u).
+      { destruct (alloc_t_dec a u) as [A|A]; [exact A|]. rewrite (c_unalloc _ Ca u A) in Ectl. discriminate. }
+      assert (Ng : notg s sc).
+      { destruct (c_ok _ Ca u Au) as [_ [_ [K3 _]]]. apply (scope_ok_treq a s sc Qi). apply K3. now rewrite Ectl. }
+      assert (R1 : Run [u] s (fst (scope_exit s sc u inc))).
+      { apply run_exit; [now apply run_refl|now left|]. intros Hok. now apply exit_side_pub. }
+      pose proof (run_tree _ _ _ R1) as T1.
+      pose proof (aw_exit t [] [] s sc u inc Hu) as Wx. pose proof (sfr_exit s sc u inc) as Fx.
+      pose proof (scope_exit_groups s sc u inc) as Gx.
+      destruct (scope_exit s sc u inc) as [s1 x]. cbn [fst] in *.
+      assert (W1 : aw t [] [] a s1) by (apply (aw_trans t _ _ a s); assumption).
+      assert (N1 : nscope s1 = nscope a) by (rewrite (sf_ns _ _ Fx); exact Eni).
+      assert (G1 : Good t s1).
+      { constructor; [now apply Tree_TreeL|apply (aw_k _ _ _ _ _ W1), (gd_k _ _ Ga)|apply (aw_run _ _ _ _ _ W1), Ga|].
+        intros y Hy. destruct (tr_host_act _ T1 y Hy) as [w [E _]]. rewrite E. discriminate. }
+      assert (Fr1 : s_active (scopes s1 (nscope a)) = false).
+      { destruct (s_active (scopes s1 (nscope a))) eqn:E; [|reflexivity].
+        pose proof (tr_act_alloc _ T1 _ E) as A. unfold alloc_s in A. lia. }
+      assert (Ggs : g_scope (groups s1 g) = g_scope (groups a g)) by (now rewrite Gx, Egi).
+      assert (HI1 : forall y, In y [nscope a] \/ In y [nscope a] -> s_active (scopes s1 y) = false)
+        by (intros y [[<-|[]]|[<-|[]]]; exact Fr1).
+      assert (HIa : forall y, In y [nscope a] \/ In y [nscope a] -> s_active (scopes a y) = false)
+        by (intros y [[<-|[]]|[<-|[]]]; exact Hfresh).
+      assert (Wof : forall m ex, nscope m = nscope a -> aw t [nscope a] [nscope a] m (fst (aexit_wait_or_finish m u g None ex))).
+      { intros m ex Nm. apply aw_wof; [exact Hu|]. intros _. rewrite Nm. split; now left. }
+      destruct x as [| |e].
+      + apply (track_site' t c [nscope a] [nscope a] a s1 s1 0 false _ Ga Gb G1 W1); [right; apply aw_refl|now apply Wof|exact HI1|exact HIa].
+      + destruct inc as [e|].
+        * destruct (is_cancel e).
+          -- apply (track_site' t c [nscope a] [nscope a] a s1 (scope_cancel s1 (g_scope (groups s1 g)) false)
+                      (g_scope (groups s1 g)) false _ Ga Gb G1 W1); [now left| |exact HI1|exact HIa].
+             apply Wof. rewrite (tq_nscope _ _ (treq_scope_cancel s1 _ false)). exact N1.
+          -- pose proof (aw_aexit_raise t [] [] s1 u g e Hu) as K2. destruct (aexit_raise s1 u g e) as [s2 r]. cbn [fst] in K2.
+             apply (track_site' t c [] [] a s1 s1 0 false _ Ga Gb G1 W1); [right; apply aw_refl| |intros y [[]|[]]|intros y [[]|[]]].
+             apply (aw_trans t _ _ s1 s2); [exact K2|now apply aw_ret].
+        * apply (track_site' t c [nscope a] [nscope a] a s1 s1 0 false _ Ga Gb G1 W1); [right; apply aw_refl|now apply Wof|exact HI1|exact HIa].
+      + pose proof (aw_aexit_raise t [] [] s1 u g e Hu) as K2. destruct (aexit_raise s1 u g e) as [s2 r]. cbn [fst] in K2.
+        apply (track_site' t c [] [] a s1 s1 0 false _ Ga Gb G1 W1); [right; apply aw_refl| |intros y [[]|[]]|intros y [[]|[]]].
+        apply (aw_trans t _ _ s1 s2); [exact K2|now apply aw_ret].
+    - (* CStartWait *)
+      destruct (snd (incoming a u fo)) as [e|] eqn:Ei.
+      + unfold resume in *. pose proof (incoming_ctl a u fo) as Ec.
+        pose proof (treq_incoming a u fo) as Qi. pose proof (aw_incoming t [] [] a u fo Hu) as Wi.
+        assert (Eti : tasks (fst (incoming a u fo)) t = tasks a t).
+        { unfold incoming. cbn. unfold upd. destruct (Nat.eqb_spec t u); [congruence|reflexivity]. }
+        assert (Efi : futs (fst (incoming a u fo)) = futs a) by reflexivity.
+        assert (Eri : running (fst (incoming a u fo)) = Some u) by reflexivity.
+        assert (Eni : nscope (fst (incoming a u fo)) = nscope a) by reflexivity.
+        destruct (incoming a u fo) as [s inc]. cbn [fst snd] in *. subst inc. rewrite Ec, Ectl in *.
+        set (x := k_hscope (tasks s child)) in *.
+        set (m2 := if handle_pending s child then scope_cancel s x false else s).
+        assert (N2 : nscope m2 = nscope a).
+        { unfold m2. destruct (handle_pending s child); [rewrite (tq_nscope _ _ (treq_scope_cancel s x false))|]; exact Eni. }
+        apply (track_site t c [nscope a] [nscope a] a s m2 x false _ Ga Gb Qi).
+        * apply (aw_k _ _ _ _ _ Wi), (gd_k _ _ Ga).
+        * rewrite Eri. congruence.
+        * exact Eti.
+        * exact Efi.
+        * exact Wi.
+        * unfold m2. destruct (handle_pending s child); [now left|right; split; [apply aw_refl|reflexivity]].
+        * unfold m2. destruct (handle_pending s child).
+          -- unfold new_scope. cbv zeta.
+             set (s1 := scope_cancel s x false).
+             assert (N1 : nscope s1 = nscope a) by (unfold s1; rewrite (tq_nscope _ _ (treq_scope_cancel s x false)); exact Eni).
+             match goal with |- context [scope_enter ?mm ?cc u] => set (s3 := fst (scope_enter mm cc u)) end.
+             assert (K3 : aw t [nscope a] [nscope a] s1 s3).
+             { unfold s3. apply (aw_new_enter t _ _ s1 None true u Hu); rewrite N1; now left. }
+             pose proof (aw_event_wait t [nscope a] [nscope a] s3 u (k_hevent (tasks s3 child)) Hu) as K4.
+             destruct (event_wait s3 u (k_hevent (tasks s3 child))) as [s4 wf]. cbn [fst blocked] in *.
+             apply (aw_trans t _ _ s1 (set_ctl s4 u (CStartJoin child (nscope s1) e wf))); [|apply aw_set_running; discriminate].
+             apply (aw_trans t _ _ s1 s4); [eapply aw_trans; eauto|now apply aw_set_ctl].
+          -- destruct (f_st (futs s f)); now apply aw_ret.
+        * intros y [[<-|[]]|[<-|[]]]; rewrite (tq_active _ _ Qi); exact Hfresh.
+      + apply (TR0 t c [] [] a _ Ga Gb); [|intros y [[]|[]]].
+        apply aw_resume_gen; [exact Hu| | | |].
+        * intros E. congruence.
+        * intros g0 ws0 e0 E. congruence.
+        * intros g0 c0 e0 E. congruence.
+        * intros g0 ch f0 _ N. now elim N.
+    - (* CStartJoin *)
+      apply K0. unfold xe_ctl, xc_ctl. rewrite Ectl. cbn [app]. intros y [[]|[]].
+  Qed.
+End ResumeTR.
+
+Section Window.
+  Variables (t : tid) (f : fid) (c : sid).
+  Notation LInv := (LInv t f c).
+
+  (* from the light walk and the tracking to the invariant of the latency argument *)
+  Lemma linv_next XE X a a' b :
+    LInv a -> tasks a' = tasks a -> futs a' = futs a -> scopes a' = scopes a -> KInv a' ->
+    (In (HWake t f) (ready a) -> In (HWake t f) (ready a')) ->
+    aw t XE X a' b -> reach_ok b -> running a' <> Some t ->
+    (eligG t a' -> trk t c a' -> ~ reqG t b -> trk t c b \/ Esc t b) ->
+    (LInv b /\ (f_st (futs a f) <> FPend -> f_st (futs b f) <> FPend)) \/ Esc t b.
+  Proof.
+    intros L Et Ef Es K Keep W Rb Ra Tr.
+    assert (Hw : k_waiter (tasks a' t) = Some f) by (rewrite Et; apply L).
+    pose proof (proj1 (aw_t _ _ _ _ _ W K) f Hw) as By.
+    pose proof (by_core _ _ _ _ By) as Ec. rewrite Et in Ec.
+    assert (KeepF : f_st (futs a f) <> FPend -> f_st (futs b f) <> FPend).
+    { intros Hn. rewrite (by_done _ _ _ _ By); rewrite Ef; exact Hn. }
+    assert (Mk : (f_st (futs b f) = FPend /\ k_must (tasks b t) = false /\ trk t c b) \/
+                 (f_st (futs b f) <> FPend /\ In (HWake t f) (ready b)) -> LInv b).
+    { intros Hc. constructor.
+      - exact Rb.
+      - apply (aw_run _ _ _ _ _ W Ra).
+      - rewrite (tcore_waiter _ _ Ec). apply L.
+      - rewrite (tcore_started _ _ Ec). apply L.
+      - rewrite (tcore_done _ _ Ec). apply L.
+      - rewrite (tcore_ctl _ _ Ec). apply L.
+      - exact Hc. }
+    destruct (li_cases _ _ _ _ L) as [[Hp [Hm Tk]]|[Hn Hin]].
+    - assert (Hp' : f_st (futs a' f) = FPend) by (rewrite Ef; exact Hp).
+      assert (Hm' : k_must (tasks a' t) = false) by (rewrite Et; exact Hm).
+      destruct (by_pend _ _ _ _ By Hp' (k_link _ K t f Hw Hp') Hw Hm') as [[P M]|[P I]].
+      + assert (El : eligG t a').
+        { unfold eligG. rewrite Et, Ef. rewrite (li_waiter _ _ _ _ L). repeat split; try apply L; assumption. }
+        assert (Tk' : trk t c a').
+        { destruct Tk as [[Hd [k [Hc V]]] [Cc Hh]]. unfold trk, reaches. rewrite Et, Es.
+          split; [split; [exact Hd|exists k; split; [exact Hc|]]|now split].
+          apply (vis_view a' a c k); [intros y; now rewrite Es|exact V]. }
+        assert (Nr : ~ reqG t b).
+        { unfold reqG. rewrite (tcore_waiter _ _ Ec), (li_waiter _ _ _ _ L). intros N. now apply N. }
+        destruct (Tr El Tk' Nr) as [T|E]; [left|now right].
+        split; [apply Mk; left; exact (conj P (conj M T))|exact KeepF].
+      + left. split; [apply Mk; right; now split|exact KeepF].
+    - left. split; [|exact KeepF]. apply Mk. right. split; [now apply KeepF|].
+      apply (by_keep _ _ _ _ By). now apply Keep.
+  Qed.
+End Window.
+
+Lemma remove_first_head a h r : ready a = h :: r -> remove_first h (ready a) = r.
+Proof. intros E. rewrite E. cbn. now rewrite handle_eqb_refl. Qed.
+
+Section Window2.
+  Variables (t : tid) (f : fid) (c : sid).
+  Notation LInv := (LInv t f c).
+  Notation pend s := (f_st (futs s f) = FPend).
+
+  (* the ops of a window: any act of somebody else ... *)
+  Definition wact (s : st) (o : op) : Prop := other_act t o /\ op_ok s o = true.
+
+  (* ... and the run of any callback at the head of the queue that does not resume t (every frame kind of the
+     resumed task is covered: simple_ctl or new_frame is always true) *)
+  Definition whead (s : st) (h : handle) : Prop :=
+    op_ok s (ARun h) = true /\ h <> HWake t f /\
+    match h with
+    | HStep u | HWake u _ =>
+        u <> t /\ (simple_ctl (k_ctl (tasks s u)) = true \/ new_frame (k_ctl (tasks s u)) = true)
+    | _ => True
+    end.
+
+  Lemma LInv_good s : LInv s -> Good t s.
+  Proof. intros L. apply good_reach; apply L. Qed.
+
+  Lemma wstep_act a o :
+    LInv a -> t < ntask a -> wact a o ->
+    (LInv (fst (step a o)) /\ (~ pend a -> ~ pend (fst (step a o))) /\ rsh a (fst (step a o)) /\
+     t < ntask (fst (step a o))) \/ Esc t (fst (step a o)).
+  Proof.
+    intros L At [Ho Hok]. pose proof (aw_step_act t a o Ho At) as W.
+    assert (Rb : reach_ok (fst (step a o))) by (apply reach_ok_step; [apply L|exact Hok]).
+    assert (Hrb : running (fst (step a o)) <> Some t) by (apply (aw_run _ _ _ _ _ W), L).
+    destruct (linv_next t f c _ _ a a _ L eq_refl eq_refl eq_refl (gd_k _ _ (LInv_good a L)) (fun H => H) W Rb (li_run _ _ _ _ L))
+      as [[L' Kp]|E]; [|left|now right].
+    - apply step_TR; [apply L|apply L|exact At|exact Ho|now apply good_reach].
+    - split; [exact L'|]. split; [exact Kp|]. split; [apply W|]. pose proof (aw_nt _ _ _ _ _ W). lia.
+  Qed.
+
+  Definition rshT (r : list handle) (b : st) : Prop :=
+    exists P new, ready b = filter P r ++ new /\ forall x, nontimer x = true -> P x = true.
+
+  Lemma wstep_head_byst a h r :
+    LInv a -> t < ntask a -> ready a = h :: r -> bystander t f a h ->
+    LInv (fst (step a (ARun h))) /\ (h = HDeliver c -> ~ pend (fst (step a (ARun h)))) /\
+    (~ pend a -> ~ pend (fst (step a (ARun h)))) /\ rshT r (fst (step a (ARun h))) /\
+    t < ntask (fst (step a (ARun h))).
+  Proof.
+    intros L At E B. rewrite <- (run_head_step a h r E).
+    destruct (linv_step t f c a h r L E B) as [L' [Hd Keep]].
+    split; [exact L'|]. split; [exact Hd|]. split; [exact Keep|]. split.
+    - apply (rsh_run_head a h r E). destruct B as [_ [_ Hk]]. destruct h; try exact I; apply Hk.
+    - rewrite (run_head_step a h r E).
+      assert (Ho : other_head t h).
+      { destruct B as [_ [_ Hk]]. destruct h; cbn; try exact I; try apply Hk. intros ->.
+        destruct (reach_sinv a (li_reach _ _ _ _ L)) as [[_ C] _].
+        assert (Hin : In (HTaskDone t) (ready a)) by (rewrite E; now left).
+        destruct (c_td _ C t Hin) as [_ Ed]. pose proof (li_ctl _ _ _ _ L) as Hw. rewrite Ed in Hw. discriminate. }
+      pose proof (aw_nt _ _ _ _ _ (aw_run_head t a h r E Ho)) as N. change (ntask (set_ready a r)) with (ntask a) in N. lia.
+  Qed.
+
+  Lemma wstep_head_new a h r u fo :
+    LInv a -> t < ntask a -> ready a = h :: r ->
+    (h = HStep u /\ fo = None \/ exists g, h = HWake u g /\ fo = Some g) ->
+    u <> t -> new_frame (k_ctl (tasks a u)) = true -> op_ok a (ARun h) = true ->
+    (LInv (fst (step a (ARun h))) /\ (h = HDeliver c -> ~ pend (fst (step a (ARun h)))) /\
+     (~ pend a -> ~ pend (fst (step a (ARun h)))) /\ rshT r (fst (step a (ARun h))) /\
+     t < ntask (fst (step a (ARun h)))) \/ Esc t (fst (step a (ARun h))).
+  Proof.
+    intros L At E Hh Hu Hf Hok.
+    assert (Ho : other_head t h) by (destruct Hh as [[-> _]|[g [-> _]]]; exact Hu).
+    pose proof (aw_run_head t a h r E Ho) as W.
+    assert (Rb : reach_ok (fst (step a (ARun h)))) by (apply reach_ok_step; [apply L|exact Hok]).
+    assert (Es : fst (step a (ARun h)) = fst (resume (set_ready a r) u fo)).
+    { rewrite (step_run_head a h r E). destruct Hh as [[-> ->]|[g [-> ->]]]; reflexivity. }
+    set (b := fst (step a (ARun h))) in *.
+    set (a' := set_ready a r) in *.
+    assert (Ga' : Good t a').
+    { apply (Good_same t a a' (LInv_good a L)); try reflexivity; [apply L|]. intros y; now repeat split. }
+    assert (Hne : h <> HWake t f) by (destruct Hh as [[-> _]|[g [-> _]]]; [discriminate|intros N; inversion N; congruence]).
+    assert (Keep : In (HWake t f) (ready a) -> In (HWake t f) (ready a')).
+    { rewrite E. intros [H|H]; [congruence|exact H]. }
+    assert (Hrb : running b <> Some t) by (apply (aw_run _ _ _ _ _ W), L).
+    assert (Gb : Good t b) by now apply good_reach.
+    destruct (linv_next t f c _ _ a a' b L eq_refl eq_refl eq_refl (gd_k _ _ Ga') Keep W Rb (li_run _ _ _ _ L))
+      as [[L' Kp]|Ex]; [|left|now right].
+    - clearbody b. subst b.
+      destruct (reach_sinv a (li_reach _ _ _ _ L)) as [[Ta Ca] _].
+      assert (Ta' : Tree a') by (apply (Tree_treq a); [exact Ta|apply treq_set_ready]).
+      assert (Ca' : Ctl a').
+      { apply (Ctl_step0 [] a a' Ca); [|intros y []]. apply creq_creq0.
+        apply creq_treq; [apply treq_set_ready|apply tcb_same_tasks; reflexivity|].
+        unfold a'. rewrite <- (remove_first_head a h r E). apply rq_td_remove_first. }
+      apply resume_TR; [exact Ta'|exact Ca'|intros Hc; apply (new_hscope_inactive a u (li_reach _ _ _ _ L) Hc)
+                       |apply (fresh_inactive a (li_reach _ _ _ _ L))|exact Hu|exact Ga'|exact Gb|exact Hf].
+    - split; [exact L'|]. split; [intros Eh; destruct Hh as [[-> _]|[g [-> _]]]; discriminate|]. split; [exact Kp|].
+      split; [apply (aw_q _ _ _ _ _ W)|]. pose proof (aw_nt _ _ _ _ _ W) as N. change (ntask a') with (ntask a) in N. lia.
+  Qed.
+
+  Lemma wstep_head a h r :
+    LInv a -> t < ntask a -> ready a = h :: r -> whead a h ->
+    (LInv (fst (step a (ARun h))) /\ (h = HDeliver c -> ~ pend (fst (step a (ARun h)))) /\
+     (~ pend a -> ~ pend (fst (step a (ARun h)))) /\ rshT r (fst (step a (ARun h))) /\
+     t < ntask (fst (step a (ARun h)))) \/ Esc t (fst (step a (ARun h))).
+  Proof.
+    intros L At E [Hok [Hne Hk]].
+    destruct h as [u|u g|x|u|g tm|x tm].
+    - destruct Hk as [Hu [Hs|Hn]].
+      + left. apply wstep_head_byst; auto. split; [exact Hok|]. split; [exact Hne|now split].
+      + apply (wstep_head_new a (HStep u) r u None); auto.
+    - destruct Hk as [Hu [Hs|Hn]].
+      + left. apply wstep_head_byst; auto. split; [exact Hok|]. split; [exact Hne|now split].
+      + apply (wstep_head_new a (HWake u g) r u (Some g)); auto. right. now exists g.
+    - left. apply wstep_head_byst; auto. split; [exact Hok|]. split; [exact Hne|exact I].
+    - left. apply wstep_head_byst; auto. split; [exact Hok|]. split; [exact Hne|exact I].
+    - left. apply wstep_head_byst; auto. split; [exact Hok|]. split; [exact Hne|exact I].
+    - left. apply wstep_head_byst; auto. split; [exact Hok|]. split; [exact Hne|exact I].
+  Qed.
+End Window2.
+
+(* ---------------- FIFO cycles with interleaved activity ---------------- *)
+Fixpoint trace (s : st) (ops : list op) : list (st * op) :=
+  match ops with [] => [] | o :: r => (s, o) :: trace (fst (step s o)) r end.
+
+Fixpoint states (s : st) (ops : list op) : list st :=
+  match ops with [] => [s] | o :: r => s :: states (fst (step s o)) r end.
+
+(* one event-loop iteration: exactly n callbacks are run, each one at the head of the queue at that moment
+   (or the queue runs dry); API calls of tasks and environment ops happen in between *)
+Inductive wcyc : nat -> st -> list op -> st -> Prop :=
+| wc_nil s : wcyc 0 s [] s
+| wc_head n s h q ops s' :
+    ready s = h :: q -> wcyc n (fst (step s (ARun h))) ops s' -> wcyc (S n) s (ARun h :: ops) s'
+| wc_act n s o ops s' :
+    (forall h, o <> ARun h) -> wcyc n (fst (step s o)) ops s' -> wcyc n s (o :: ops) s'
+| wc_dry n s : ready s = [] -> wcyc n s [] s.
+
+Lemma trace_app s a b : trace s (a ++ b) = trace s a ++ trace (final step s a) b.
+Proof. revert s. induction a as [|o a IH]; intros s; cbn; [reflexivity|]. now rewrite IH. Qed.
+
+Lemma states_in_app s a b si : In si (states s a) \/ In si (states (final step s a) b) -> In si (states s (a ++ b)).
+Proof.
+  revert s. induction a as [|o a IH]; intros s H; cbn in *.
+  - destruct H as [[->|[]]|H]; [|exact H]. destruct b; now left.
+  - destruct H as [[->|H]|H]; [now left|right; apply IH; now left|right; apply IH; now right].
+Qed.
+
+Lemma wcyc_final n s ops s' : wcyc n s ops s' -> s' = final step s ops.
+Proof. induction 1; cbn; auto. Qed.
+
+Section Cycles.
+  Variables (t : tid) (f : fid) (c : sid).
+  Notation LInv := (LInv t f c).
+  Notation pend s := (f_st (futs s f) = FPend).
+
+  (* every op is a window op, until t's wake-up is run with its future done *)
+  Fixpoint wok (s : st) (ops : list op) : Prop :=
+    match ops with
+    | [] => True
+    | o :: r =>
+        (o = ARun (HWake t f) /\ ~ pend s) \/
+        ((wact t s o \/ exists h q, o = ARun h /\ ready s = h :: q /\ whead t f s h) /\ wok (fst (step s o)) r)
+    end.
+
+  Definition found (s : st) (ops : list op) : Prop :=
+    exists si q, In (si, ARun (HWake t f)) (trace s ops) /\ LInv si /\ ~ pend si /\ ready si = HWake t f :: q.
+  Definition escd (s : st) (ops : list op) : Prop := exists si, In si (states s ops) /\ Esc t si.
+
+  Lemma found_cons s o r : found (fst (step s o)) r -> found s (o :: r).
+  Proof. intros [si [q [H1 H2]]]. exists si, q. split; [now right|exact H2]. Qed.
+  Lemma escd_cons s o r : escd (fst (step s o)) r -> escd s (o :: r).
+  Proof. intros [si [H1 H2]]. exists si. split; [now right|exact H2]. Qed.
+  Lemma escd_here s o r : Esc t (fst (step s o)) -> escd s (o :: r).
+  Proof. intros H. exists (fst (step s o)). split; [right; destruct r; now left|exact H]. Qed.
+
+  Lemma split_filter (P : handle -> bool) pre h0 post new :
+    P h0 = true ->
+    exists pre' post', filter P (pre ++ h0 :: post) ++ new = pre' ++ h0 :: post' /\ length pre' <= length pre.
+  Proof.
+    intros H. exists (filter P pre), (filter P post ++ new). rewrite filter_app. cbn [filter]. rewrite H.
+    split; [now rewrite <- app_assoc|apply filter_len].
+  Qed.
+
+  Lemma wok_head_inv s h r :
+    wok s (ARun h :: r) ->
+    (h = HWake t f /\ ~ pend s) \/ ((exists q, ready s = h :: q /\ whead t f s h) /\ wok (fst (step s (ARun h))) r).
+  Proof.
+    cbn [wok]. intros [[E N]|[[[Ho _]|[h' [q [E [Er W]]]]] K]].
+    - left. inversion E. now split.
+    - destruct Ho.
+    - right. inversion E; subst h'. split; [now exists q|exact K].
+  Qed.
+
+  Lemma wok_act_inv s o r :
+    (forall h, o <> ARun h) -> wok s (o :: r) -> wact t s o /\ wok (fst (step s o)) r.
+  Proof.
+    intros Hn. cbn [wok]. intros [[E _]|[[W|[h [q [E _]]]] K]]; [now elim (Hn (HWake t f))|now split|now elim (Hn h)].
+  Qed.
+
+  (* the invariant survives a cycle, unless t is woken or escapes *)
+  Lemma phase_keep n s ops s' : wcyc n s ops s' -> forall rest,
+    wok s (ops ++ rest) -> LInv s -> t < ntask s ->
+    found s ops \/ escd s ops \/ (LInv s' /\ t < ntask s' /\ (~ pend s -> ~ pend s') /\ wok s' rest).
+  Proof.
+    induction 1 as [s|n s h q ops s' E Hc IH|n s o ops s' Hn Hc IH|n s E]; intros rest Wk L At.
+    - right; right. exact (conj L (conj At (conj (fun H => H) Wk))).
+    - cbn [app] in Wk. destruct (wok_head_inv s h _ Wk) as [[-> Np]|[[q' [E' Wh]] Wk']].
+      + left. exists s, q. split; [now left|exact (conj L (conj Np E))].
+      + destruct (wstep_head t f c s h q L At E Wh) as [[L' [_ [Kp [_ At']]]]|Ex]; [|right; left; now apply escd_here].
+        destruct (IH rest Wk' L' At') as [F|[X|[L2 [At2 [Kp2 W2]]]]];
+          [left; now apply found_cons|right; left; now apply escd_cons|right; right].
+        split; [exact L2|]. split; [exact At2|]. split; [intros Np; apply Kp2, Kp, Np|exact W2].
+    - cbn [app] in Wk. destruct (wok_act_inv s o _ Hn Wk) as [Wa Wk'].
+      destruct (wstep_act t f c s o L At Wa) as [[L' [Kp [_ At']]]|Ex]; [|right; left; now apply escd_here].
+      destruct (IH rest Wk' L' At') as [F|[X|[L2 [At2 [Kp2 W2]]]]];
+        [left; now apply found_cons|right; left; now apply escd_cons|right; right].
+      split; [exact L2|]. split; [exact At2|]. split; [intros Np; apply Kp2, Kp, Np|exact W2].
+    - right; right. exact (conj L (conj At (conj (fun H => H) Wk))).
+  Qed.
+
+  Lemma rshT_split r b pre h0 post :
+    rshT r b -> r = pre ++ h0 :: post -> nontimer h0 = true ->
+    exists pre' post', ready b = pre' ++ h0 :: post' /\ length pre' <= length pre.
+  Proof.
+    intros [P [new [E HP]]] -> Hn. rewrite E. apply split_filter. now apply HP.
+  Qed.
+
+  Lemma rsh_split a b pre h0 post :
+    rsh a b -> ready a = pre ++ h0 :: post -> nontimer h0 = true ->
+    exists pre' post', ready b = pre' ++ h0 :: post' /\ length pre' <= length pre.
+  Proof.
+    intros [P [new [E HP]]] Er Hn. rewrite E, Er. apply split_filter. now apply HP.
+  Qed.
+
+  (* once the future is done, t's wake-up (a queue position below the cycle's length) is run in this cycle *)
+  Lemma phase_wake n s ops s' : wcyc n s ops s' -> forall rest pre post,
+    wok s (ops ++ rest) -> LInv s -> t < ntask s -> ~ pend s ->
+    ready s = pre ++ HWake t f :: post -> length pre < n ->
+    found s ops \/ escd s ops.
+  Proof.
+    induction 1 as [s|n s h q ops s' E Hc IH|n s o ops s' Hn Hc IH|n s E]; intros rest pre post Wk L At Np Er Hl.
+    - lia.
+    - cbn [app] in Wk. destruct (wok_head_inv s h _ Wk) as [[-> _]|[[q' [E' Wh]] Wk']].
+      + left. exists s, q. split; [now left|exact (conj L (conj Np E))].
+      + destruct pre as [|h1 pre]; cbn [app] in Er; rewrite E in Er; inversion Er; subst.
+        { destruct Wh as [_ [N _]]. now elim N. }
+        destruct (wstep_head t f c s h1 _ L At E Wh) as [[L' [_ [Kp [Q At']]]]|Ex]; [|right; now apply escd_here].
+        destruct (rshT_split _ _ pre (HWake t f) post Q eq_refl eq_refl) as [pre' [post' [Er' Hl']]].
+        cbn [length] in Hl.
+        destruct (IH rest pre' post' Wk' L' At' (Kp Np) Er' ltac:(lia)) as [F|X];
+          [left; now apply found_cons|right; now apply escd_cons].
+    - cbn [app] in Wk. destruct (wok_act_inv s o _ Hn Wk) as [Wa Wk'].
+      destruct (wstep_act t f c s o L At Wa) as [[L' [Kp [Q At']]]|Ex]; [|right; now apply escd_here].
+      destruct (rsh_split _ _ pre (HWake t f) post Q Er eq_refl) as [pre' [post' [Er' Hl']]].
+      destruct (IH rest pre' post' Wk' L' At' (Kp Np) Er' ltac:(lia)) as [F|X];
+        [left; now apply found_cons|right; now apply escd_cons].
+    - rewrite E in Er. destruct pre; discriminate.
+  Qed.
+
+  (* the delivery callback of c (a queue position below the cycle's length) is run in this cycle: afterwards the
+     future is done *)
+  Lemma phase_deliver n s ops s' : wcyc n s ops s' -> forall rest pre post,
+    wok s (ops ++ rest) -> LInv s -> t < ntask s ->
+    ready s = pre ++ HDeliver c :: post -> length pre < n ->
+    found s ops \/ escd s ops \/ (LInv s' /\ t < ntask s' /\ ~ pend s' /\ wok s' rest).
+  Proof.
+    induction 1 as [s|n s h q ops s' E Hc IH|n s o ops s' Hn Hc IH|n s E]; intros rest pre post Wk L At Er Hl.
+    - lia.
+    - cbn [app] in Wk. destruct (wok_head_inv s h _ Wk) as [[-> _]|[[q' [E' Wh]] Wk']].
+      + left. exists s, q. split; [now left|]. split; [exact L|]. split; [|exact E].
+        destruct (wok_head_inv s _ _ Wk) as [[_ Np]|[[q2 [_ [_ [N _]]]] _]]; [exact Np|now elim N].
+      + destruct (wstep_head t f c s h q L At E Wh) as [[L' [Hd [Kp [Q At']]]]|Ex]; [|right; left; now apply escd_here].
+        destruct pre as [|h1 pre]; cbn [app] in Er; rewrite E in Er; inversion Er; subst.
+        * (* the delivery runs now *)
+          destruct (phase_keep n _ ops s' Hc rest Wk' L' At') as [F|[X|[L2 [At2 [Kp2 W2]]]]];
+            [left; now apply found_cons|right; left; now apply escd_cons|right; right].
+          split; [exact L2|]. split; [exact At2|]. split; [apply Kp2, Hd; reflexivity|exact W2].
+        * destruct (rshT_split _ _ pre (HDeliver c) post Q eq_refl eq_refl) as [pre' [post' [Er' Hl']]].
+          cbn [length] in Hl.
+          destruct (IH rest pre' post' Wk' L' At' Er' ltac:(lia)) as [F|[X|R]];
+            [left; now apply found_cons|right; left; now apply escd_cons|right; right; exact R].
+    - cbn [app] in Wk. destruct (wok_act_inv s o _ Hn Wk) as [Wa Wk'].
+      destruct (wstep_act t f c s o L At Wa) as [[L' [Kp [Q At']]]|Ex]; [|right; left; now apply escd_here].
+      destruct (rsh_split _ _ pre (HDeliver c) post Q Er eq_refl) as [pre' [post' [Er' Hl']]].
+      destruct (IH rest pre' post' Wk' L' At' Er' ltac:(lia)) as [F|[X|R]];
+        [left; now apply found_cons|right; left; now apply escd_cons|right; right; exact R].
+    - rewrite E in Er. destruct pre; discriminate.
+  Qed.
+End Cycles.
+
+(* C03 cancel_latency_any_activity.  Task t is suspended on the pending future f with no request recorded, has
+   started, and reaches the cancelled hosted scope c, at a cycle boundary of a reachable state.  ops1 and ops2 are
+   two consecutive event-loop iterations (wcyc: as many head-of-queue callback runs as the queue was long at the
+   start of the iteration, with any number of other ops in between), and up to the moment t's wake-up is run
+   every op is a window op (wok): ANY API call of ANY other task, scope.cancel() from a callback, time passing,
+   a new root task, a native cancel of another task, or the run of the callback at the head of the queue unless it
+   resumes t.  Then:
+   t's wake-up is run within the two iterations and raises a cancellation - unless its future was completed with a
+   result or an exception first - or at some moment of the window t was no longer effectively cancelled (somebody
+   raised a shield between t and every cancelled scope). *)
+Theorem cancel_latency_any_activity t f c s ops1 ops2 s1 s2 :
+  reach_ok s -> running s <> Some t ->
+  s_cancelled (scopes s c) = true -> s_host (scopes s c) <> None -> reaches s t c ->
+  k_must (tasks s t) = false -> k_started (tasks s t) = true ->
+  k_waiter (tasks s t) = Some f -> f_st (futs s f) = FPend -> wait_ctl (k_ctl (tasks s t)) = true ->
+  wcyc (length (ready s)) s ops1 s1 -> wcyc (length (ready s1)) s1 ops2 s2 -> wok t f s (ops1 ++ ops2) ->
+  (exists si, In (si, ARun (HWake t f)) (trace s (ops1 ++ ops2)) /\
+     ((exists o, snd (step si (ARun (HWake t f))) = RExc (ECancel o)) \/
+      (exists v, f_st (futs si f) = FRes v) \/ (exists e, f_st (futs si f) = FExc e))) \/
+  (exists si, In si (states s (ops1 ++ ops2)) /\ eff_cancelled_from (nscope si) si (k_cur (tasks si t)) = false).
+Proof.
+  intros R Hr Cc Hh Rt Hm Hs Hw Hp Hctl C1 C2 Wk.
+  assert (L : LInv t f c s).
+  { constructor; try assumption; [apply Rt|]. left. split; [exact Hp|]. split; [exact Hm|]. exact (conj Rt (conj Cc Hh)). }
+  assert (At : t < ntask s).
+  { destruct Rt as [_ [x [Hc _]]]. pose proof (tr_cur_alloc _ (reach_tree s R) t x Hc) as A. apply A. }
+  destruct (delivery_alive s c R Cc Hh (ex_intro _ t Rt)) as [_ Hin].
+  destruct (in_split _ _ Hin) as [pre [post E]].
+  assert (Hl : length pre < length (ready s)) by (rewrite E, app_length; cbn; lia).
+  assert (Fin : forall a ops, found t f c a ops ->
+            exists si, In (si, ARun (HWake t f)) (trace a ops) /\
+              ((exists o, snd (step si (ARun (HWake t f))) = RExc (ECancel o)) \/
+               (exists v, f_st (futs si f) = FRes v) \/ (exists e, f_st (futs si f) = FExc e))).
+  { intros a ops [si [q [Hi [Li [Np Er]]]]]. exists si. split; [exact Hi|].
+    apply (wake_result t f si q); [apply Li|apply Li|exact Er|exact Np]. }
+  assert (Ex : forall a ops, escd t a ops ->
+            exists si, In si (states a ops) /\ eff_cancelled_from (nscope si) si (k_cur (tasks si t)) = false).
+  { intros a ops [si [Hi He]]. exists si. split; [exact Hi|now apply Esc_not_effectively_cancelled]. }
+  pose proof (wcyc_final _ _ _ _ C1) as E1.
+  destruct (phase_deliver t f c _ s ops1 s1 C1 ops2 pre post Wk L At E Hl) as [F|[X|[L1 [At1 [Np1 W1]]]]].
+  - left. destruct (Fin _ _ F) as [si [Hi Hres]]. exists si. split; [|exact Hres].
+    rewrite trace_app. apply in_or_app. now left.
+  - right. destruct (Ex _ _ X) as [si [Hi He]]. exists si. split; [|exact He]. apply states_in_app. now left.
+  - destruct (li_cases _ _ _ _ L1) as [[Hp1 _]|[_ Hin1]]; [contradiction|].
+    destruct (in_split _ _ Hin1) as [pre1 [post1 Er1]].
+    assert (Hl1 : length pre1 < length (ready s1)) by (rewrite Er1, app_length; cbn; lia).
+    assert (W1' : wok t f s1 (ops2 ++ [])) by now rewrite app_nil_r.
+    destruct (phase_wake t f c _ s1 ops2 s2 C2 [] pre1 post1 W1' L1 At1 Np1 Er1 Hl1) as [F|X].
+    + left. destruct (Fin _ _ F) as [si [Hi Hres]]. exists si. split; [|exact Hres].
+      rewrite trace_app, <- E1. apply in_or_app. now right.
+    + right. destruct (Ex _ _ X) as [si [Hi He]]. exists si. split; [|exact He]. apply states_in_app. right. now rewrite <- E1.
+Qed.
+
+
+(* ---------------- non-vacuity: a task group with two sleeping children whose scope is cancelled ----------------
+   Host 1 waits in TaskGroup.__aexit__ (frame CAexitWait); children 2 and 3 sleep.  Child 3 cancelled the group
+   scope 1 itself before going to sleep (so the delivery that hit child 2 and the host skipped it: it was
+   running) - it is the task t of the theorem, f = 11.
+   Iteration 1: child 2 is woken with the cancellation; its program ends (AFinish, an API-level act of another
+                task); the host is woken inside __aexit__ with the cancellation (shields its wait scope, waits
+                again); the delivery callback of scope 1 cancels child 3's sleep.
+   Iteration 2: the task-done callback of child 2; child 3's wake-up raises the cancellation. *)
+Definition grp_pre : list op :=
+  [ANewRoot; AGroupNew 1; AGroupEnter 1 1; ASpawn 1 1; ASpawn 1 1; ARun (HStep 2); ARun (HStep 3);
+   ASleep 2 None; AGroupExit 1 1; ACancel 3 1; ASleep 3 None].
+Definition grp_ops1 : list op := [ARun (HWake 2 8); AFinish 2 0; ARun (HWake 1 9); ARun (HDeliver 1)].
+Definition grp_ops2 : list op := [ARun (HTaskDone 2); ARun (HWake 3 11); ARun (HDeliver 1)].
+
+Ltac vcr := vm_compute; reflexivity.
+
+Example grp_premises :
+  let s := final step init grp_pre in
+  reach_ok s /\ running s <> Some 3 /\ s_cancelled (scopes s 1) = true /\ s_host (scopes s 1) <> None /\
+  reaches s 3 1 /\ k_must (tasks s 3) = false /\ k_started (tasks s 3) = true /\ k_waiter (tasks s 3) = Some 11 /\
+  f_st (futs s 11) = FPend /\ wait_ctl (k_ctl (tasks s 3)) = true /\
+  k_ctl (tasks s 1) = CAexitWait 1 4 None /\ k_ctl (tasks s 2) = CSleep 8 0 /\
+  ready s = [HWake 2 8; HWake 1 9; HDeliver 1] /\
+  wok 3 11 s (grp_ops1 ++ grp_ops2) /\
+  exists s1 s2, wcyc (length (ready s)) s grp_ops1 s1 /\ wcyc (length (ready s1)) s1 grp_ops2 s2 /\
+                ready s1 = [HTaskDone 2; HWake 3 11; HDeliver 1].
+Proof.
+  cbv zeta. set (s := final step init grp_pre).
+  assert (R : reach_ok s) by (exists grp_pre; split; [vcr|reflexivity]).
+  refine (conj R _). repeat (match goal with |- _ /\ _ => split end).
+  - assert (E : running s = None) by vcr. rewrite E. discriminate.
+  - vcr.
+  - assert (E : s_host (scopes s 1) = Some 1) by vcr. rewrite E. discriminate.
+  - split; [vcr|]. exists 3. split; [vcr|].
+    eapply vis_up; [vcr|vcr|vcr|]. apply vis_here.
+  - vcr.
+  - vcr.
+  - vcr.
+  - vcr.
+  - vcr.
+  - vcr.
+  - vcr.
+  - vcr.
+  - unfold grp_ops1, grp_ops2. cbn [app wok].
+    right. split; [right; exists (HWake 2 8), [HWake 1 9; HDeliver 1]; split; [reflexivity|split; [vcr|]]|].
+    { split; [vcr|]. split; [discriminate|]. cbv beta iota. split; [intros N; discriminate N|]. left. vcr. }
+    right. split; [left; split; [cbn; intros N; discriminate N|vcr]|].
+    right. split; [right; exists (HWake 1 9), [HDeliver 1; HTaskDone 2]; split; [reflexivity|split; [vcr|]]|].
+    { split; [vcr|]. split; [discriminate|]. cbv beta iota. split; [intros N; discriminate N|]. right. vcr. }
+    right. split; [right; exists (HDeliver 1), [HTaskDone 2]; split; [reflexivity|split; [vcr|]]|].
+    { split; [vcr|]. split; [discriminate|exact I]. }
+    right. split; [right; exists (HTaskDone 2), [HWake 3 11; HDeliver 1]; split; [reflexivity|split; [vcr|]]|].
+    { split; [vcr|]. split; [discriminate|exact I]. }
+    left. split; [reflexivity|]. vm_compute. discriminate.
+  - eexists. eexists. split; [|split].
+    + assert (E : length (ready s) = 3) by vcr. rewrite E. unfold grp_ops1.
+      eapply wc_head; [vcr|]. apply wc_act; [intros h; discriminate|].
+      eapply wc_head; [vcr|]. eapply wc_head; [vcr|]. apply wc_nil.
+    + match goal with |- wcyc (length (ready ?x)) _ _ _ => assert (E : length (ready x) = 3) by vcr; rewrite E end.
+      unfold grp_ops2. eapply wc_head; [vcr|]. eapply wc_head; [vcr|]. eapply wc_head; [vcr|]. apply wc_nil.
+    + vcr.
+Qed.
+
+(* the theorem applied to it *)
+Example grp_instance :
+  let s := final step init grp_pre in
+  (exists si, In (si, ARun (HWake 3 11)) (trace s (grp_ops1 ++ grp_ops2)) /\
+     ((exists o, snd (step si (ARun (HWake 3 11))) = RExc (ECancel o)) \/
+      (exists v, f_st (futs si 11) = FRes v) \/ (exists e, f_st (futs si 11) = FExc e))) \/
+  (exists si, In si (states s (grp_ops1 ++ grp_ops2)) /\ eff_cancelled_from (nscope si) si (k_cur (tasks si 3)) = false).
+Proof.
+  cbv zeta. destruct grp_premises as (H1 & H2 & H3 & H4 & H5 & H6 & H7 & H8 & H9 & H10 & _ & _ & _ & H13 & s1 & s2 & H11 & H12 & _).
+  exact (cancel_latency_any_activity 3 11 1 _ _ _ s1 s2 H1 H2 H3 H4 H5 H6 H7 H8 H9 H10 H11 H12 H13).
+Qed.
+
+(* ---------------- the window predicate without any mention of frames ---------------- *)
+Lemma frame_cover k : simple_ctl k = true \/ new_frame k = true.
+Proof. destruct k as [| |[| |x]| | | | | | |]; cbn; auto. Qed.
+
+Section Final.
+  Variables (t : tid) (f : fid).
+
+  (* a window op: an act of somebody else, or the run of the callback at the head of the ready queue unless it
+     resumes t (t's wake-up HWake t f ends the window, see wok0) *)
+  Definition wop (s : st) (o : op) : Prop :=
+    (other_act t o /\ op_ok s o = true) \/
+    (exists h q, o = ARun h /\ ready s = h :: q /\ op_ok s o = true /\ h <> HWake t f /\
+                 match h with HStep u | HWake u _ => u <> t | _ => True end).
+
+  Fixpoint wok0 (s : st) (ops : list op) : Prop :=
+    match ops with
+    | [] => True
+    | o :: r => (o = ARun (HWake t f) /\ f_st (futs s f) <> FPend) \/ (wop s o /\ wok0 (fst (step s o)) r)
+    end.
+
+  Lemma wok0_wok ops : forall s, wok0 s ops -> wok t f s ops.
+  Proof.
+    induction ops as [|o r IH]; intros s H; [exact I|]. cbn [wok0 wok] in *.
+    destruct H as [H|[[W|[h [q [E [Er [Hok [Hne Hk]]]]]]] K]]; [now left| |]; right; (split; [|now apply IH]).
+    - now left.
+    - right. exists h, q. split; [exact E|]. split; [exact Er|]. subst o. split; [exact Hok|]. split; [exact Hne|].
+      destruct h; try exact I; (split; [exact Hk|apply frame_cover]).
+  Qed.
+End Final.
+
+(* C03 cancel_latency_any_activity, final form *)
+Theorem cancel_latency_any_activity_full t f c s ops1 ops2 s1 s2 :
+  reach_ok s -> running s <> Some t ->
+  s_cancelled (scopes s c) = true -> s_host (scopes s c) <> None -> reaches s t c ->
+  k_must (tasks s t) = false -> k_started (tasks s t) = true ->
+  k_waiter (tasks s t) = Some f -> f_st (futs s f) = FPend -> wait_ctl (k_ctl (tasks s t)) = true ->
+  wcyc (length (ready s)) s ops1 s1 -> wcyc (length (ready s1)) s1 ops2 s2 -> wok0 t f s (ops1 ++ ops2) ->
+  (exists si, In (si, ARun (HWake t f)) (trace s (ops1 ++ ops2)) /\
+     ((exists o, snd (step si (ARun (HWake t f))) = RExc (ECancel o)) \/
+      (exists v, f_st (futs si f) = FRes v) \/ (exists e, f_st (futs si f) = FExc e))) \/
+  (exists si, In si (states s (ops1 ++ ops2)) /\ eff_cancelled_from (nscope si) si (k_cur (tasks si t)) = false).
+Proof.
+  intros R Hr Cc Hh Rt Hm Hs Hw Hp Hctl C1 C2 Wk.
+  apply (cancel_latency_any_activity t f c s ops1 ops2 s1 s2); auto. now apply wok0_wok.
+Qed.
+
+Example grp_wok0 : wok0 3 11 (final step init grp_pre) (grp_ops1 ++ grp_ops2).
+Proof.
+  set (s := final step init grp_pre). unfold grp_ops1, grp_ops2. cbn [app wok0].
+  right. split; [right; exists (HWake 2 8), [HWake 1 9; HDeliver 1]; split; [reflexivity|split; [vcr|]]|].
+  { split; [vcr|]. split; [discriminate|]. intros N; discriminate N. }
+  right. split; [left; split; [cbn; intros N; discriminate N|vcr]|].
+  right. split; [right; exists (HWake 1 9), [HDeliver 1; HTaskDone 2]; split; [reflexivity|split; [vcr|]]|].
+  { split; [vcr|]. split; [discriminate|]. intros N; discriminate N. }
+  right. split; [right; exists (HDeliver 1), [HTaskDone 2]; split; [reflexivity|split; [vcr|]]|].
+  { split; [vcr|]. split; [discriminate|exact I]. }
+  right. split; [right; exists (HTaskDone 2), [HWake 3 11; HDeliver 1]; split; [reflexivity|split; [vcr|]]|].
+  { split; [vcr|]. split; [discriminate|exact I]. }
+  left. split; [reflexivity|]. vm_compute. discriminate.
+Qed.
